@@ -3,7 +3,7 @@
     one only starts in layer 2), with a block-name mapping. *)
 From Coq Require Import Ascii String List Bool Arith ZArith QArith Qminmax Lia Lqa Permutation.
 From PTBase Require Import Exn PyStr.
-From P Require Import FromGeo Arith Lists NamesAgree Volume ConnGeom.
+From P Require Import FromGeo Arith Lists NamesAgree Volume ConnGeom ConnNoDup.
 Import ListNotations.
 Open Scope Q_scope.
 
@@ -140,3 +140,6 @@ Example ex_names_all :
   map (apply_map bm_ex) names_ex0 <> names_ex0 /\
   block_connection_name_list (g_ex 0) = Ok cnl_ex0 /\ NoDup (map (map_pair bm_ex) cnl_ex0).
 Proof. exact (conj ex_names (conj ex_names_nodup (conj ex_map_used (conj ex_cnames ex_cnames_nodup)))). Qed.
+
+Example ex_hpairs atm : hpairs_distinct (g_ex atm).
+Proof. apply (nodupb_sound pair_eqb _ pair_eqb_r). vm_compute. reflexivity. Qed.
